@@ -79,6 +79,8 @@ UNMARSHAL_INPUTS = [
     # text in the other carriers: every member looks at the very same input object, one after the other
     "memoryview(b'abc')", "memoryview(b'5')", "bytearray(b'1.5')", "memoryview(bytearray(b'2020-01-02'))", "memoryview(b'[1, 2]')",
     "bytearray(b'a')", "memoryview(b'00000000-0000-0000-0000-000000000005')",
+    # live containers whose first members an earlier union member converts before it fails on a later one
+    "{'a': '1', 'b': 'x'}", "{'a': 1.9, 'b': 'oops'}", "['1', '2', 'x']", "[1.9, 'x']", "{'a': '7', 'b': None}",
 ]
 MARSHAL_INPUTS = [
     "None", "True", "0", "1", "-5", "10**20", "1.5", "''", "'a'", "'1'", "'abc'", "2", "'2020-01-02'",
@@ -118,15 +120,22 @@ _CODE = {}
 
 
 def fresh(src):
-    """a new object for every call (stateful carriers): no member routine sees an input another call has already looked at"""
+    """a new object for every call: no member routine sees an input another call has already looked at (or converted in place)"""
     c = _CODE.get(src)
     if c is None:
         c = _CODE[src] = compile(src, "<input>", "eval")
-        if not src.startswith(("memoryview", "bytearray")):
-            _CODE[src] = c = ("obj", eval(c, dict(NS)))  # noqa: S307  (immutable inputs: one object, as before)
+        if src == "object()":
+            _CODE[src] = c = ("obj", eval(c, dict(NS)))  # noqa: S307  (its text shows its address: one object for all calls)
     if isinstance(c, tuple):
         return c[1]
     return eval(c, dict(NS))  # noqa: S307
+
+
+def _safe_snapshot(x):
+    try:
+        return snapshot(x)
+    except Exception as e:  # noqa: BLE001  (a released memoryview)
+        return ("<unusable>", type(e).__name__)
 
 
 def reference(members, none_pos, src, direction):
@@ -173,8 +182,15 @@ def check_union(members, none_pos, spelling, col, inputs_u=UNMARSHAL_INPUTS, inp
         for src in pool:
             col.ev()
             want, idx, rej = reference(members, none_pos, src, direction)
-            k, v = tl.call(routine, fresh(src))
+            x_in = fresh(src)
+            before_in = _safe_snapshot(x_in)
+            k, v = tl.call(routine, x_in)
             got = ("ok", snapshot(v)) if k == "ok" else ("exc", tl.exc_name(v))
+            if _safe_snapshot(x_in) != before_in and not src.startswith("memoryview"):
+                col.violation(f"{direction}-first-acceptor",
+                              {"members": list(members), "none_pos": none_pos, "spelling": spelling, "direction": direction, "input": src},
+                              f"{direction}({expr}, {src}) changed its input: the members after the first see what an earlier member left behind",
+                              bucket="input-changed")
             nontriv = (idx not in (0, None)) or (none_pos is not None and none_pos != len(members)) or bool(rej - {"ValueError", "TypeError"})
             if nontriv:
                 col.nt(f"{expr}|{direction}|{src}")
